@@ -71,7 +71,7 @@ CHECKS["C34"] = _c("expansion of gogen's keyed-list helper templates over a froz
     "Decides, for 7 key shapes, that New/Append reject duplicate (and nil) keys before writing, New's entry carries the key arguments, Append derives the key from the element, Get writes nothing and never creates, GetOrCreate creates only on a miss, Delete removes only the key, Rename validates first, sets every key leaf from newK in the right direction and moves the entry, and ΛListKeyMap covers every key.")
 
 CHECKS["C33"] = _c("expansion of gogen's PopulateDefaults/getter templates (standard library text/template over analyser-built leaf shapes) + the same per-method guard analysis over the 30 compiled PopulateDefaults methods; provenance analysis of Go literals in yangDefaultValueToGo; key-statement substring lint",
-    "Decides that PopulateDefaults writes a leaf only under that leaf's unset test with a fresh default literal, writes exactly the defaulted leaves and descends into every child; that default literals are %q-quoted or parsed-then-raw and validated against the type's restrictions at generation; and that `key` statements are never searched by substring.")
+    "Decides that PopulateDefaults writes a leaf only under that leaf's unset test with a fresh default literal, writes exactly the defaulted leaves and descends into every child; that default literals are %q-quoted or parsed-then-raw and validated against the type's restrictions at generation; and that `key` statements are never searched by substring; two value-semantics clauses (binary default literal built from the base64 text, defaults of leaves below a case populated unconditionally) are decided as violated and recorded as known findings.")
 
 CHECKS["C29"] = _c("purity/effect analysis of ygot's path resolution, expansion of ypathgen's constructor and key-builder templates (standard library text/template, analyser-built data), value-flow rule on the generator's key-map text, same-source rule for relative paths, key type tables",
     "Decides that resolution caches nothing and renders names in order with every key through KeyValueAsString (ancestors first), that ModifyKey writes exactly the named key, that the generated constructor passes its receiver as parent with the generator's path list and key map, that every list constructor's key map has one entry per key (value or \"*\") with the empty form only for the all-wildcard non-builder case, and that path lists and GoStruct path tags derive from the same IR data.")
